@@ -230,14 +230,17 @@ def lex(s):
 
 def terminals(n, acc):
     if n["op"] == "lit" and n["s"]: acc.add(n["s"])
-    elif n["op"] == "ref": acc.add({"Ident": "x", "Int": "7", "Comment": "#k#"}[n["t"]])
+    elif n["op"] == "ref":
+        if n["t"] != "EOF": acc.add({"Ident": "x", "Int": "7", "Comment": "#k#"}[n["t"]])
     for k in n.get("kids", []): terminals(k, acc)
     if "kid" in n: terminals(n["kid"], acc)
 
 def sample(n, prods, unions, rng, depth):
     op = n["op"]
     if op == "lit": return [n["s"] if n["s"] else rng.choice(["q", "9", "!"])]
-    if op == "ref": return [{"Ident": rng.choice(["x", "y", "A"]), "Int": rng.choice(["7", "42", "127", "128", "300", "9"]), "Comment": "#k#"}[n["t"]]]
+    if op == "ref":
+        if n["t"] == "EOF": return []
+        return [{"Ident": rng.choice(["x", "y", "A"]), "Int": rng.choice(["7", "42", "127", "128", "300", "9"]), "Comment": "#k#"}[n["t"]]]
     if op == "seq": return [t for k in n["kids"] for t in sample(k, prods, unions, rng, depth)]
     if op == "alt": return sample(rng.choice(n["kids"]), prods, unions, rng, depth)
     if op == "grp":
